@@ -98,7 +98,12 @@ TraceInit == /\ l = 1 /\ TLCSet(HW, 0) /\ TLCSet(VI, <<>>)
              /\ ref = {} /\ refNames = [ip \in IPS |-> NoNames] /\ refLast = [ip \in IPS |-> Nil]
              /\ expect = [kind |-> "none"]
 
-TraceNext == \/ TReset \/ TParse \/ TUntracked \/ TDhcpFrame \/ TNotify \/ TDhcpUpd \/ TOffer
+\* the library panicked inside this step (reported by the check itself); the driver abandons the
+\* behaviour, the next line is a reset
+TPanic == /\ l <= Len(Trace) /\ "panic" \in DOMAIN E /\ l' = l + 1
+          /\ UNCHANGED <<hosts, macs, frame, notes, now, ref, refNames, refLast, expect>>
+
+TraceNext == \/ TPanic \/ TReset \/ TParse \/ TUntracked \/ TDhcpFrame \/ TNotify \/ TDhcpUpd \/ TOffer
              \/ TCapture \/ TRelease \/ TName \/ TAdv \/ TPurge \/ TFrameStep \/ TDhcpAck
 
 TraceSpec == TraceInit /\ [][TraceNext]_tvars
@@ -125,7 +130,7 @@ Failed == IF "C04" \in Check /\ ~T_C04 THEN "C04"
           ELSE IF "C05" \in Check /\ ~T_C05 THEN "C05"
           ELSE IF "C06" \in Check /\ ~T_C06 THEN "C06"
           ELSE "none"
-Props == IF ~Started \/ LE.a = "reset" \/ Failed = "none" THEN TRUE
+Props == IF ~Started \/ LE.a = "reset" \/ "panic" \in DOMAIN LE \/ Failed = "none" THEN TRUE
          ELSE TLCSet(VI, <<l - 1, Failed>>) /\ FALSE
 
 TraceAccepted ==
